@@ -145,11 +145,16 @@ TypedArgBase* ArgumentContainer::findArg( const ArgumentKey& key) const
    TypedArgBase*  part_match = nullptr;
 
 
+   // an exact match always wins, independent of the order in which the
+   // arguments were defined
    for (auto const& argi : mArguments)
    {
       if (argi == key)
          return argi.data().get();
+   } // end for
 
+   for (auto const& argi : mArguments)
+   {
       if (mAbbrAllowed && argi.key().startsWith( key))
       {
          // found a match using the long argument as abbreviation
